@@ -67,6 +67,20 @@ class Pred:
         return f'Pred({self.m})'
 
 
+class GroupFn:
+    """sid(x) % m as group id"""
+
+    def __init__(self, m, log=None, stage=None):
+        self.m = m
+        self.log = log
+        self.stage = stage or f'g{m}'
+
+    def __call__(self, x):
+        if self.log is not None:
+            self.log.append((self.stage, sid(x)))
+        return sid(x) % self.m
+
+
 class SortKey:
     """Injective on the source ids in use (7 is invertible modulo 211)."""
 
